@@ -581,7 +581,7 @@ func (f *OrefaFile) Truncate(size int64) error {
 		return &fs.PathError{Op: op, Path: f.name, Err: err}
 	}
 
-	if size < 0 {
+	if size < 0 || size > maxFileSize {
 		return &fs.PathError{Op: op, Path: f.name, Err: f.vfs.err.InvalidArgument}
 	}
 
@@ -645,6 +645,12 @@ func (f *OrefaFile) Write(b []byte) (n int, err error) {
 	if f.openMode&avfs.OpenAppend != 0 {
 		// With O_APPEND every write goes to the current end of the file.
 		f.at = int64(len(nd.data))
+	}
+
+	if f.at > maxFileSize-int64(len(b)) {
+		nd.mu.Unlock()
+
+		return 0, &fs.PathError{Op: op, Path: f.name, Err: f.vfs.err.InvalidArgument}
 	}
 
 	if gap := f.at - int64(len(nd.data)); gap > 0 {
@@ -714,6 +720,10 @@ func (f *OrefaFile) WriteAt(b []byte, off int64) (n int, err error) {
 		}
 
 		return 0, &fs.PathError{Op: op, Path: f.name, Err: err}
+	}
+
+	if off > maxFileSize-int64(len(b)) {
+		return 0, &fs.PathError{Op: op, Path: f.name, Err: f.vfs.err.InvalidArgument}
 	}
 
 	nd.mu.Lock()
